@@ -25,6 +25,7 @@ type simpleServer struct {
 }
 
 const simpleAcceptFrame = "(*FSimpleServer).accept("
+const simpleAcceptLoop = "(*FSimpleServer).acceptLoop"
 
 func newSimpleServer(proto string) (entryPoint, error) {
 	st := newMemServerTransport()
@@ -50,9 +51,14 @@ func (s *simpleServer) exchange(chunks ...[]byte) ([][]byte, outcome) {
 		started := c.out.reads > 0
 		c.out.mu.Unlock()
 		return started && goroutinesWith(simpleAcceptFrame) == 0
+	}, func() (bool, string) {
+		// nobody will ever take the connection if the accept loop is gone
+		return goroutinesWith(simpleAcceptLoop) > 0, simpleAcceptLoop
 	})
 	if o.kind != "ok" {
-		o.note = "the server goroutine of a connection whose input has ended never finished: " + o.note
+		if o.kind == "stall" {
+			o.note = "the server goroutine of a connection whose input has ended never finished: " + o.note
+		}
 		return nil, o
 	}
 	frames := splitFrames(c.in.takeAll())
